@@ -489,6 +489,21 @@ func c03LengthSweep(ctx *Ctx, report func(c interface{}, err error)) {
 	fams = append(fams, family{"negative-big-int-many-bytes", 0, len(bigIntBytes) - 1, func(n int) []ev.Event {
 		return []ev.Event{{K: ev.BigInt, Big: new(big.Int).Neg(new(big.Int).Lsh(big.NewInt(0x81), uint(8*(bigIntBytes[n]-1))))}}
 	}})
+	// identifiers, media types and zone names beyond the one-byte lengths
+	longLens := []int{126, 127, 128, 129, 200, 255, 256, 257, 999, 1000, 1001}
+	fams = append(fams, family{"long-marker-id", 0, len(longLens) - 1, func(n int) []ev.Event {
+		return []ev.Event{{K: ev.Marker, Bs: []byte(name(longLens[n]))}, {K: ev.Int, I: 1}}
+	}})
+	fams = append(fams, family{"long-media-type", 0, len(longLens) - 1, func(n int) []ev.Event {
+		return []ev.Event{{K: ev.Media, S: "a/" + strings.Repeat("b", longLens[n]-2), Bs: []byte{1, 2}}}
+	}})
+	fams = append(fams, family{"long-zone-name", 0, len(longLens) - 1, func(n int) []ev.Event {
+		return tm(compact_time.NewTime(10, 0, 0, 0, compact_time.TZAtAreaLocation(name(longLens[n]))))
+	}})
+	dfCoeffs := []int64{1, -1, 999999999999999999, 1000000000000000000, 9223372036854775807, -9223372036854775807, -9223372036854775808, 4611686018427387904, 123456789012345678}
+	fams = append(fams, family{"decimal-float-coefficient", 0, len(dfCoeffs) - 1, func(n int) []ev.Event {
+		return []ev.Event{{K: ev.DFloat, DF: compact_float.DFloatValue(-3, dfCoeffs[n])}, {K: ev.DFloat, DF: compact_float.DFloatValue(40, dfCoeffs[n])}}
+	}})
 	// times: years, sub-seconds and zone forms at their edges
 	years := []int{-2000000000, -131072, -131071, -100000, -10000, -9999, -1001, -1, 1, 999, 1000, 1999, 2000, 2001, 2127, 2128, 9999, 10000, 99999, 131071, 131072, 2000000000}
 	fams = append(fams, family{"time/date-years", 0, len(years) - 1, func(n int) []ev.Event { return tm(compact_time.NewDate(years[n], 12, 31)) }})
